@@ -68,6 +68,15 @@ template <class C> struct Runner {
     }
 };
 
+// the stand-alone IPv4 text parser (uriParseIpFourAddress): success exactly on four dec-octets, bytes equal to the values written
+template <class C> void ip4_case(Ctx &ctx, FenceBuf &fb, const Str &t) {
+    std::basic_string<C> w = widen<C>(t); const C *p = (const C *)fb.put_end(w.data(), w.size() * sizeof(C)); unsigned char got[4] = { 0xEE, 0xEE, 0xEE, 0xEE }, want[4]; int sig;
+    bool ok = ref::parse_ipv4(t, want);
+    if ((sig = GUARD_ENTER()) != 0) { ctx.violation("", "ip4:" + t, fmt("%s in uriParseIpFourAddress (type=%s)", signame(sig), Api<C>::name())); return; }
+    int rc = Api<C>::ParseIpFourAddress(got, p, p + w.size()); GUARD_LEAVE();
+    if (ok != (rc == URI_SUCCESS) || (rc != URI_SUCCESS && rc != URI_ERROR_SYNTAX)) ctx.violation("", "ip4:" + t, fmt("uriParseIpFourAddress rc=%d, expected %s (type=%s)", rc, ok ? "success" : "URI_ERROR_SYNTAX", Api<C>::name()));
+    else if (ok && memcmp(got, want, 4) != 0) ctx.violation("", "ip4:" + t, fmt("uriParseIpFourAddress gives %u.%u.%u.%u (type=%s)", got[0], got[1], got[2], got[3], Api<C>::name()));
+}
 struct Both {
     Local lc; Runner<char> ra; Runner<wchar_t> rw; Ctx &ctx;
     Both(Ctx &c, size_t pages = 4) : ra(&c, &lc, pages), rw(&c, &lc, pages), ctx(c) {}
@@ -93,20 +102,27 @@ void run(Ctx &ctx) {
     shape_product(ctx.secondary ? 0 : ctx.quick() ? 1 : 2, [&](const Str &s) { if (ctx.mine(idx++)) b.run(s.data(), (int)s.size(), true); });
     { Both bs(ctx, 520); uint64_t si = 0; stretch_family(ctx.secondary ? 0 : ctx.quick() ? 1 : 2, [&](const Str &s) { if (ctx.mine(si++) && !ctx.expired()) { bs.run(s.data(), (int)s.size(), true); ctx.st.count("stretch_family"); } });
       b.lc.strings += bs.lc.strings; b.lc.accepted += bs.lc.accepted; b.lc.calls += bs.lc.calls; for (int i = 0; i < 5; i++) b.lc.kinds[i] += bs.lc.kinds[i]; b.lc.empty_components += bs.lc.empty_components; b.lc.placeholder_empty += bs.lc.placeholder_empty; for (auto &x : bs.lc.shapes) b.lc.shapes.insert(x); }
+    if (z.octets) {
+        static const char *oc[17] = { "0", "9", "10", "99", "100", "199", "200", "249", "250", "255", "256", "260", "300", "00", "01", "1a", "" };
+        uint64_t oi = 0; for (int a = 0; a < 17; a++) for (int b2 = 0; b2 < 17; b2++) { if (!ctx.mine(oi++) || ctx.expired()) continue; for (int c = 0; c < 17; c++) for (int d = 0; d < 17; d++) {
+            Str h = Str(oc[a]) + "." + oc[b2] + "." + oc[c] + "." + oc[d]; ip4_case<char>(ctx, b.ra.fb, h); ip4_case<wchar_t>(ctx, b.rw.fb, h); ctx.st.count("ip4_parser_cases"); } }
+        all_strings(ctx, "0125.9a", ctx.secondary ? 5 : 7, [&](const Str &s) { if (ctx.expired()) return; ip4_case<char>(ctx, b.ra.fb, s); ip4_case<wchar_t>(ctx, b.rw.fb, s); ctx.st.count("ip4_parser_cases"); });
+    }
     ctx.st.count("evaluations", b.lc.strings); ctx.st.count("accepted_strings", b.lc.accepted); ctx.st.count("parse_results_compared", b.lc.calls);
     ctx.st.count("host_regname", b.lc.kinds[1]); ctx.st.count("host_ip4", b.lc.kinds[2]); ctx.st.count("host_ip6", b.lc.kinds[3]); ctx.st.count("host_ipfuture", b.lc.kinds[4]);
     ctx.st.count("empty_components", b.lc.empty_components); ctx.st.count("empty_components_using_placeholder", b.lc.placeholder_empty);
     for (auto &s : b.lc.shapes) ctx.st.distinct("shapes", s);
     if (ctx.worker == 0) { ctx.st.sample("s://u:p@[A:b::1.2.3.4]:80/a/./b/../c?a=b&c=%41%2f/?#%41/?"); ctx.st.sample("//@:"); ctx.st.sample("//[::1.2.3.4]"); ctx.st.count("param_k", z.k); ctx.st.count("param_L", z.L); }
 }
-void replay(Ctx &ctx, const Str &enc) { Both b(ctx, 520); b.run(enc.data(), (int)enc.size(), true); }
+void replay(Ctx &ctx, const Str &enc) { if (enc.compare(0, 4, "ip4:") == 0) { FenceBuf fb(4); ip4_case<char>(ctx, fb, enc.substr(4)); ip4_case<wchar_t>(ctx, fb, enc.substr(4)); return; }
+    Both b(ctx, 520); b.run(enc.data(), (int)enc.size(), true); }
 Str coverage(const Ctx &, const Stats &st) {
     return jkv("states", DFA_NSTATES) + ", " + jkv("transitions", (uint64_t)(DFA_NSTATES - 1) * 256) + ", " + jkv("traces_validated_against_impl", st.get("parse_results_compared")) + ", " +
            jkv("evaluations", st.get("evaluations")) + ", " + jkv("distinct_nontrivial", st.nset("shapes")) + ", " +
            jkvs("rule", "cases = strings of the C01 sets (W-method set with k, class brute force to L, IPv6/IPvFuture/dec-octet products) plus the shape product; every ACCEPTED string is parsed through the entry points in both character types and every reported component is compared (presence, text, offset into the input) with the reference Appendix-B decomposition. distinct_nontrivial = number of distinct component shapes (scheme/authority/userinfo/host kind/port/query/fragment presence x segment count) among accepted strings.") + ", " +
            jkv("accepted_strings", st.get("accepted_strings")) + ", " + jkv("host_regname", st.get("host_regname")) + ", " + jkv("host_ip4", st.get("host_ip4")) + ", " + jkv("host_ip6", st.get("host_ip6")) + ", " + jkv("host_ipfuture", st.get("host_ipfuture")) + ", " +
            jkv("empty_components", st.get("empty_components")) + ", " + jkv("empty_components_using_placeholder", st.get("empty_components_using_placeholder")) + ", " +
-           jkv("k_extra_states", st.get("param_k")) + ", " + jkv("bruteforce_length", st.get("param_L")) + ", " + jkv("stretch_family_strings", st.get("stretch_family")) + ", " + jsamples(st);
+           jkv("k_extra_states", st.get("param_k")) + ", " + jkv("bruteforce_length", st.get("param_L")) + ", " + jkv("stretch_family_strings", st.get("stretch_family")) + ", " + jkv("ip4_text_parser_cases", st.get("ip4_parser_cases")) + ", " + jsamples(st);
 }
 Check chk = { "C02", "model_checking", run, replay, coverage, "reference decomposition (harness/ref.cpp, RFC 3986 Appendix B + component grammar) agrees with the spec DFA on every enumerated string (checked on every run)|IPv6 value per RFC 4291 text form" };
 REGISTER_CHECK(chk);
